@@ -232,28 +232,19 @@ Lemma kview_inv k k' : kview k' = kview k ->
   k_group k' = k_group k /\ k_ctl k' = k_ctl k /\ k_startfut k' = k_startfut k.
 Proof. unfold kview. intros H. injection H. tauto. Qed.
 
-Lemma KInv_mono s s' :
+Lemma KInv_mono_refd s s' :
   (forall t, kview (tasks s' t) = kview (tasks s t)) ->
   futs s' = futs s -> nfut s' = nfut s -> ntask s' = ntask s -> running s' = running s ->
-  events s' = events s -> groups s' = groups s ->
+  (forall f, refd s' f -> refd s f) ->
   thtasks (ready s') = thtasks (ready s) -> tdtasks (ready s') = tdtasks (ready s) ->
   (forall h, task_handle h = true -> In h (ready s') -> In h (ready s)) ->
-  (forall f tm, In (HSleepDone f tm) (ready s') -> In (HSleepDone f tm) (ready s)) ->
-  (forall x f, In x (timers s') -> tm_what x = TSleep f -> In x (timers s)) ->
   KInv s -> KInv s'.
 Proof.
-  intros Hv Hf Hnf Hnt Hr He Hg Hth Htd Hh Hsl Htm K.
+  intros Hv Hf Hnf Hnt Hr Hrefd Hth Htd Hh K.
   assert (V : forall t, k_waiter (tasks s' t) = k_waiter (tasks s t) /\ k_done (tasks s' t) = k_done (tasks s t) /\
                 k_tdran (tasks s' t) = k_tdran (tasks s t) /\ k_group (tasks s' t) = k_group (tasks s t) /\
                 k_ctl (tasks s' t) = k_ctl (tasks s t) /\ k_startfut (tasks s' t) = k_startfut (tasks s t)).
   { intros t. apply kview_inv, Hv. }
-  assert (Hrefd : forall x, refd s' x -> refd s x).
-  { intros f [[e H]|[[g H]|[[c H]|[[tm H]|[x [H1 H2]]]]]].
-    - left. exists e. now rewrite <- He.
-    - right; left. exists g. now rewrite <- Hg.
-    - right; right; left. exists c. destruct (V c) as [_ [_ [_ [_ [_ V6]]]]]. now rewrite <- V6.
-    - right; right; right. left. exists tm. auto.
-    - right; right; right. right. exists x. eauto. }
   constructor; unfold alloc; rewrite ?Hth, ?Htd, ?Hf, ?Hnf, ?Hnt, ?Hr.
   - apply K.
   - apply K.
@@ -267,6 +258,40 @@ Proof.
     intros Hp t Hw. destruct (V t) as [-> _]. auto.
   - intros t f. destruct (V t) as [-> [_ [_ [_ [-> _]]]]]. intros H1 H2 Hx. apply Hrefd in Hx.
     eapply k_idle; eauto.
+Qed.
+
+Lemma refd_mono s s' :
+  (forall e f, In f (e_waiters (events s' e)) -> In f (e_waiters (events s e))) ->
+  (forall g f, g_fut (groups s' g) = Some f -> exists g', g_fut (groups s g') = Some f) ->
+  (forall c f, k_startfut (tasks s' c) = Some f -> exists c', k_startfut (tasks s c') = Some f) ->
+  (forall f, sleepref s' f -> sleepref s f) ->
+  forall f, refd s' f -> refd s f.
+Proof.
+  intros He Hg Hs Hsl f [[e H]|[[g H]|[[c H]|H]]].
+  - left. exists e. auto.
+  - right; left. eauto.
+  - right; right; left. eauto.
+  - right; right; right. auto.
+Qed.
+
+Lemma KInv_mono s s' :
+  (forall t, kview (tasks s' t) = kview (tasks s t)) ->
+  futs s' = futs s -> nfut s' = nfut s -> ntask s' = ntask s -> running s' = running s ->
+  events s' = events s -> groups s' = groups s ->
+  thtasks (ready s') = thtasks (ready s) -> tdtasks (ready s') = tdtasks (ready s) ->
+  (forall h, task_handle h = true -> In h (ready s') -> In h (ready s)) ->
+  (forall f tm, In (HSleepDone f tm) (ready s') -> In (HSleepDone f tm) (ready s)) ->
+  (forall x f, In x (timers s') -> tm_what x = TSleep f -> In x (timers s)) ->
+  KInv s -> KInv s'.
+Proof.
+  intros Hv Hf Hnf Hnt Hr He Hg Hth Htd Hh Hsl Htm.
+  apply KInv_mono_refd; auto.
+  apply refd_mono.
+  - intros e f. now rewrite He.
+  - intros g f. rewrite Hg. eauto.
+  - intros c f H. exists c. pose proof (kview_inv _ _ (Hv c)) as V. destruct V as [_ [_ [_ [_ [_ V]]]]].
+    now rewrite <- V.
+  - intros f [[tm H]|[x [H1 H2]]]; [left; eauto|right; eauto].
 Qed.
 
 Lemma upd_task_kview s t g :
